@@ -215,7 +215,10 @@ def random_events(rng, shape):
 
 
 def run_trace(tid, shape, events):
-    w = World(shape)
+    try:
+        w = World(shape)
+    except Exception as e:  # noqa  - declaring the tunables / building the owner class raised
+        return {"id": tid, "shape": shape, "steps": [{"in": {"e": "raised"}, "out": {"err": "%s: %s" % (type(e).__name__, e)}}]}
     steps = []
     for ev in events:
         ev = {k: v for k, v in ev.items() if k != "x"}
